@@ -204,7 +204,10 @@ func WrapDnsResponseSrv(msg *dns.Msg, data []byte, domain string) error {
 			d = data
 			data = data[0:0]
 		}
-		target := string(d) + "." + domain + "."
+		target, err := PrepareHostname(d, domain)
+		if err != nil {
+			return err
+		}
 		msg.Answer = append(msg.Answer, &dns.SRV{
 			Hdr: dns.RR_Header{
 				Rrtype: uint16(QueryTypeSrv),
@@ -213,7 +216,7 @@ func WrapDnsResponseSrv(msg *dns.Msg, data []byte, domain string) error {
 				Ttl:    1,
 			},
 			Priority: order,
-			Target:   target,
+			Target:   string(target),
 		})
 	}
 
